@@ -4,8 +4,8 @@
    keywords order-insensitively, classes without their name. *)
 From Coq Require Import String Floats.SpecFloat.
 From Statham.Model Require Import Str Json Elem PyNum Validate Equality Sub.
-From Statham.Model Require Import Spec6 SerJson Plain SerFrag EqFrag.
-From Statham.Proofs Require Import JsonEqProof EqualityProof JsonCong C01Vm C01Parse C03Meaning C17Cong.
+From Statham.Model Require Import Spec6 SerJson Plain SerFrag EqFrag ClsFrag Resolve.
+From Statham.Proofs Require Import JsonEqProof EqualityProof JsonCong C01Vm C01Parse C03Meaning C17Cong C03Classes C17Classes SerJsonProof.
 Local Open Scope string_scope.
 Local Open Scope list_scope.
 
@@ -86,3 +86,45 @@ Print Assumptions C17_equal_same_verdict.
 Theorem C17_premise_checker : forall fuel e, goodb fuel e = true -> good e.
 Proof. exact goodb_sound. Qed.
 Print Assumptions C17_premise_checker.
+
+(* ---- trees WITH object classes ----------------------------------------------------------------------
+   Equal trees (== ignores class names) of the fragment goodc - the fragment of C03_inplace_meaning,
+   well-formed literals, no float multipleOf - have in-place documents with the same Draft-6 meaning
+   (object clause with the required-with-default waiver included), hence accept the same values. *)
+Theorem C17_equal_inplace_documents_same_meaning : forall O a b, goodc a -> goodc b -> elem_eq a b = true ->
+  forall v, jwf v -> v6 O WCode (ser_inl a) v = v6 O WCode (ser_inl b) v.
+Proof. intros O a b Ga Gb He. exact (ser_inl_cong O a Ga b Gb He). Qed.
+Print Assumptions C17_equal_inplace_documents_same_meaning.
+
+Theorem C17_equal_same_verdict_classes : forall O a b, goodc a -> goodc b -> elem_eq a b = true ->
+  forall v, jwf v -> ncrash (build O a (Some v)) -> ncrash (build O b (Some v)) ->
+  accepts O a v = accepts O b v.
+Proof. intros O a b Ga Gb He v Hv N1 N2. exact (equal_same_verdict_classes O a b Ga Gb He v Hv N1 N2). Qed.
+Print Assumptions C17_equal_same_verdict_classes.
+
+Theorem C17_classes_premise_checker : forall fuel e, goodcb fuel e = true -> goodc e.
+Proof. exact goodcb_sound. Qed.
+Print Assumptions C17_classes_premise_checker.
+
+(* non-vacuity: two equal trees whose classes carry DIFFERENT names (== ignores the name), both within goodc, and the
+   in-place documents / the validator agree on an accepted and on a rejected value *)
+Definition c17_cls (n : string) : elem :=
+  EObj (s_ n) [s_ "Object"]
+       (mkK None None None None (AddBool true) None None false None None None None None None None None None None (Some [s_ "a"])
+            (Some [(s_ "a", mkProp (EK CString k0) true (s_ "a"));
+                   (s_ "n", mkProp (EK CInteger k0) false (s_ "n"))])
+            None (AddBool false) None None None None None).
+Definition c17_tree (n : string) : elem :=
+  EK CArray (mkK None None None (Some (ItOne (c17_cls n))) (AddBool true) None None false None None None None None None None None None None None None None (AddBool true) None None None None None).
+Example C17_classes_inhabited :
+  elem_eq (c17_tree "Foo") (c17_tree "Bar") = true /\ goodc (c17_tree "Foo") /\ goodc (c17_tree "Bar") /\
+  accepts no_oracle (c17_tree "Foo") (JArr [JObj [(s_ "a", JStr (s_ "x")); (s_ "n", JInt 1)]]) = true /\
+  accepts no_oracle (c17_tree "Bar") (JArr [JObj [(s_ "a", JStr (s_ "x")); (s_ "n", JInt 1)]]) = true /\
+  accepts no_oracle (c17_tree "Foo") (JArr [JObj [(s_ "n", JInt 1)]]) = false /\
+  accepts no_oracle (c17_tree "Bar") (JArr [JObj [(s_ "n", JInt 1)]]) = false.
+Proof.
+  split; [vm_compute; reflexivity|].
+  split; [apply (goodcb_sound 20); vm_compute; reflexivity|].
+  split; [apply (goodcb_sound 20); vm_compute; reflexivity|].
+  repeat split; vm_compute; reflexivity.
+Qed.
